@@ -24,6 +24,7 @@ import Driver.ConsensusStore
 import Driver.Downloader
 import Driver.Frame
 import Driver.LedgerNode
+import Driver.VdbCache
 /-
 One line per handler object. The first handler that understands a line answers it.
 -/
@@ -64,7 +65,8 @@ def registry : List Obj := [
   mkObj ([] : DlBuf) dlStep,
   pureObj pureFrame,
   mkObj ({} : PmSt) pmStep,
-  ledgerNodeObj
+  ledgerNodeObj,
+  vcObj
 ]
 
 end ZV.Driver
